@@ -3,9 +3,9 @@
    uniform_real_distribution<double>, compared with libstdc++ by the K-RNG correspondence).  dr s p = draw number p.
    Every arithmetic; no bound on sizes.
    Only statements; every proof is `exact <lemma>` (proofs live in the files imported below). *)
-From Coq Require Import Arith List Bool.
+From Coq Require Import Arith List Bool ZArith Floats.
 Import ListNotations.
-From MT Require Import Arith SweepModel InitModel CtrlModel InitProofs RunProofs.
+From MT Require Import Arith SweepModel InitModel CtrlModel InitProofs RunProofs MainModel InitProofs Mt19937 SeededModel SeedProofs CanonicalRange SeedCorollaries.
 
 (* a realization of the general model with random affinity consumes EXACTLY n = L*K(K+1)/2 + [directed] K*|v_list| + K*|u_list| *)
 (* draws, in this order: affinity, in-memberships (column by column over v_list), out-memberships; rows outside the lists are zero; *)
@@ -15,8 +15,8 @@ Theorem C17_start_random_general : forall (num : Type) (A : Arith num) (directed
        exists (ut vt : matrix num) (s3 : list num),
          start_of num A (list (matrix num)) unit (step_random_gen num A K L) directed N K ul vl b =
          (tt, (ut, vt, fst (init_sym_random num A K L (strm b))), s3) /\
-         start_post num A (list (matrix num)) unit directed N K ul vl b
-           (L * PeanoNat.Nat.div (K * (K + 1)) 2) ut vt s3.
+         start_post num A (list (matrix num)) unit directed N K ul vl b (L * (K * (K + 1) / 2)) ut vt
+           s3.
 Proof. exact start_of_consumption_random_gen. Qed.
 Print Assumptions C17_start_random_general.
 
@@ -59,44 +59,43 @@ Print Assumptions C17_start_from_assortative.
 (* symmetric per layer, each draw used for exactly one unordered pair (pos is a bijection: next theorems) *)
 Theorem C17_affinity_random_symmetric : forall (num : Type) (A : Arith num) (K L : nat) (s : list num),
        let r := init_sym_random num A K L s in
-       let T := PeanoNat.Nat.div (K * (K + 1)) 2 in
-       snd r = List.skipn (L * T) s /\
+       let T := K * (K + 1) / 2 in
+       snd r = skipn (L * T) s /\
        length (fst r) = L /\
-       (forall a : nat,
-        a < L -> List.nth a (fst r) nil = fst (init_sym_layer num A K (List.skipn (a * T) s))) /\
+       (forall a : nat, a < L -> nth a (fst r) [] = fst (init_sym_layer num A K (skipn (a * T) s))) /\
        (forall a i j : nat,
         a < L ->
         i <= j < K ->
-        tget num A (fst r) i j a = dr num A s (a * T + pos K i j) /\
-        tget num A (fst r) j i a = dr num A s (a * T + pos K i j)).
+        tget num A (fst r) i j a = dr num A s (a * T + InitProofs.pos K i j) /\
+        tget num A (fst r) j i a = dr num A s (a * T + InitProofs.pos K i j)).
 Proof. exact init_sym_random_spec. Qed.
 Print Assumptions C17_affinity_random_symmetric.
 
 Theorem C17_pair_position_injective : forall K i j i' j' : nat,
-       i <= j < K -> i' <= j' < K -> pos K i j = pos K i' j' -> i = i' /\ j = j'.
+       i <= j < K -> i' <= j' < K -> InitProofs.pos K i j = InitProofs.pos K i' j' -> i = i' /\ j = j'.
 Proof. exact pos_inj. Qed.
 Print Assumptions C17_pair_position_injective.
 
-Theorem C17_pair_position_onto : forall K p : nat, p < tri K K -> exists i j : nat, i <= j < K /\ pos K i j = p.
+Theorem C17_pair_position_onto : forall K p : nat, p < tri K K -> exists i j : nat, i <= j < K /\ InitProofs.pos K i j = p.
 Proof. exact pos_surj. Qed.
 Print Assumptions C17_pair_position_onto.
 
 Theorem C17_affinity_random_diagonal : forall (num : Type) (A : Arith num) (K L : nat) (s : list num),
        let r := init_diag_random num A K L s in
-       snd r = List.skipn (L * K) s /\
+       snd r = skipn (L * K) s /\
        length (fst r) = L /\
-       (forall a : nat, a < L -> length (List.nth a (fst r) nil) = K) /\
+       (forall a : nat, a < L -> length (nth a (fst r) []) = K) /\
        (forall k a : nat, k < K -> a < L -> dget num A (fst r) k a = dr num A s (a * K + k)).
 Proof. exact init_diag_random_spec. Qed.
 Print Assumptions C17_affinity_random_diagonal.
 
 (* value + 0.1 x draw per entry, every entry its own draw *)
 Theorem C17_affinity_from_file_general : forall (num : Type) (A : Arith num) (K L : nat) (cache : list (list (list num))) (s : list num),
-       (forall a : nat, a < L -> mshape num K K (List.nth a cache nil)) ->
+       (forall a : nat, a < L -> mshape num K K (nth a cache [])) ->
        let r := init_from_gen num A K L cache s in
-       snd r = List.skipn (L * K * K) s /\
+       snd r = skipn (L * K * K) s /\
        length (fst r) = L /\
-       (forall a : nat, a < L -> mshape num K K (List.nth a (fst r) nil)) /\
+       (forall a : nat, a < L -> mshape num K K (nth a (fst r) [])) /\
        (forall k q a : nat,
         k < K ->
         q < K ->
@@ -107,11 +106,11 @@ Proof. exact init_from_gen_spec. Qed.
 Print Assumptions C17_affinity_from_file_general.
 
 Theorem C17_affinity_from_file_assortative : forall (num : Type) (A : Arith num) (K L : nat) (cache : list (list num)) (s : list num),
-       (forall a : nat, a < L -> length (List.nth a cache nil) = K) ->
+       (forall a : nat, a < L -> length (nth a cache []) = K) ->
        let r := init_from_ass num A K L cache s in
-       snd r = List.skipn (L * K) s /\
+       snd r = skipn (L * K) s /\
        length (fst r) = L /\
-       (forall a : nat, a < L -> length (List.nth a (fst r) nil) = K) /\
+       (forall a : nat, a < L -> length (nth a (fst r) []) = K) /\
        (forall k a : nat,
         k < K ->
         a < L -> dget num A (fst r) k a = noisy num A (dget num A cache k a) (dr num A s (a * K + k))).
@@ -120,17 +119,17 @@ Print Assumptions C17_affinity_from_file_assortative.
 
 (* memberships of the listed vertices are the draws, column by column; all other rows keep the (zero) prior value *)
 Theorem C17_membership_rows : forall (num : Type) (A : Arith num) (N K : nat) (elements : list nat),
-       List.NoDup elements ->
-       List.Forall (fun i : nat => i < N) elements ->
+       NoDup elements ->
+       Forall (fun i : nat => i < N) elements ->
        forall (M : matrix num) (s : list num),
        mshape num N K M ->
        let r := init_rows num A K elements M s in
-       snd r = List.skipn (K * length elements) s /\
+       snd r = skipn (K * length elements) s /\
        mshape num N K (fst r) /\
        (forall p i k : nat,
-        List.nth_error elements p = Some i ->
+        nth_error elements p = Some i ->
         k < K -> mget num A (fst r) i k = dr num A s (k * length elements + p)) /\
-       (forall i k : nat, ~ List.In i elements -> mget num A (fst r) i k = mget num A M i k).
+       (forall i k : nat, ~ In i elements -> mget num A (fst r) i k = mget num A M i k).
 Proof. exact init_rows_spec. Qed.
 Print Assumptions C17_membership_rows.
 
@@ -146,4 +145,77 @@ Theorem C17_stream_threaded : forall (num : Type) (A : Arith num) (W : Type)
        snd (start_of num A W IC initw directed N K ul vl b).
 Proof. exact run_stream. Qed.
 Print Assumptions C17_stream_threaded.
+
+(* the stream itself is part of the model (Mt19937.v: mt19937 seeding, twist, tempering on Z; generate_canonical<double,53> on binary64): *)
+(* the engine reproduces the value the C++ standard prescribes for the 10000th output of a default-seeded mt19937 *)
+Theorem C17_engine_is_mt19937 : nth
+         (Init.Nat.of_num_uint
+            (Number.UIntDecimal (Decimal.D9 (Decimal.D9 (Decimal.D9 (Decimal.D9 Decimal.Nil))))))
+         (outputs_from
+            (Init.Nat.of_num_uint
+               (Number.UIntDecimal
+                  (Decimal.D1 (Decimal.D0 (Decimal.D0 (Decimal.D0 (Decimal.D0 Decimal.Nil)))))))
+            (mt_init 5489)) 0%Z = 4123659995%Z.
+Proof. exact mt19937_standard_check. Qed.
+Print Assumptions C17_engine_is_mt19937.
+
+(* 624 words below 2^32, position at most 624; every output is a 32-bit word *)
+Theorem C17_engine_invariant : forall s : mt_state, mt_ok s -> mt_ok (snd (next32 s)) /\ (0 <= fst (next32 s) < W32)%Z.
+Proof. exact next32_ok. Qed.
+Print Assumptions C17_engine_invariant.
+
+(* every draw d of RandomGenerator<>{seed} satisfies 0 <= d and d < 1 as binary64 comparisons (so it is not NaN): ranges of the random starts *)
+(* (floating-point proof: CanonicalRange.v, Flocq) *)
+Theorem C17_draws_in_unit_interval : forall (seed : Z) (n : nat), Forall in_unit (mt_draws seed n).
+Proof. exact mt_draws_in_unit. Qed.
+Print Assumptions C17_draws_in_unit_interval.
+
+(* the first n draws do not depend on how many are requested: one stream per seed *)
+Theorem C17_stream_prefix : forall (seed : Z) (n m : nat), firstn n (mt_draws seed (n + m)) = mt_draws seed n.
+Proof. exact mt_draws_prefix. Qed.
+Print Assumptions C17_stream_prefix.
+
+(* the library call as a function of the SEED (SeededModel.factorize_seeded: factorize on the first draws_needed draws of that seed's stream): any longer *)
+(* prefix of the stream gives the same result -- no draw beyond  r * (affinity draws + K|v_list| [directed] + K|u_list|)  is ever read *)
+Theorem C17_reproducible_from_seed : forall (A : Arith float) (label : Type) (leqb : label -> label -> bool) 
+         (wt : Type) (countf : wt -> nat) (ovr : nat -> nat -> float -> float)
+         (directed assort from_init : bool) (starts ends : list label) (weights : list wt)
+         (r maxit nconv u_rows u_cols : nat) (u0 v0 : matrix float) (aff0 : list float) 
+         (seed : Z) (n : nat),
+       draws_needed label leqb wt countf directed assort from_init starts ends weights 
+         (length aff0) u_rows u_cols r maxit nconv <= n ->
+       factorize float A label leqb wt countf ovr directed assort from_init starts ends weights r maxit
+         nconv u_rows u_cols u0 v0 aff0 (mt_draws seed n) =
+       factorize_seeded A label leqb wt countf ovr directed assort from_init starts ends weights r
+         maxit nconv u_rows u_cols u0 v0 aff0 seed.
+Proof. exact factorize_seeded_stable. Qed.
+Print Assumptions C17_reproducible_from_seed.
+
+(* the same for the start state of every realization *)
+Theorem C17_starts_reproducible_from_seed : forall (A : Arith float) (label : Type) (leqb : label -> label -> bool) 
+         (wt : Type) (countf : wt -> nat) (ovr : nat -> nat -> float -> float)
+         (directed assort from_init : bool) (starts ends : list label) (weights : list wt)
+         (r maxit nconv u_rows u_cols : nat) (u0 v0 : matrix float) (aff0 : list float) 
+         (seed : Z) (n : nat),
+       draws_needed label leqb wt countf directed assort from_init starts ends weights 
+         (length aff0) u_rows u_cols r maxit nconv <= n ->
+       factorize_starts float A label leqb wt countf ovr directed assort from_init starts ends weights
+         r maxit nconv u_rows u_cols u0 v0 aff0 (mt_draws seed n) =
+       factorize_starts_seeded A label leqb wt countf ovr directed assort from_init starts ends weights
+         r maxit nconv u_rows u_cols u0 v0 aff0 seed.
+Proof. exact factorize_starts_seeded_stable. Qed.
+Print Assumptions C17_starts_reproducible_from_seed.
+
+(* static_cast<unsigned int>(seed): seeds congruent modulo 2^32 give the same run *)
+Theorem C17_seed_taken_modulo_2_32 : forall (A : Arith float) (label : Type) (leqb : label -> label -> bool) 
+         (wt : Type) (countf : wt -> nat) (ovr : nat -> nat -> float -> float)
+         (directed assort from_init : bool) (starts ends : list label) (weights : list wt)
+         (r maxit nconv u_rows u_cols : nat) (u0 v0 : matrix float) (aff0 : list float) 
+         (seed k : Z),
+       factorize_seeded A label leqb wt countf ovr directed assort from_init starts ends weights r
+         maxit nconv u_rows u_cols u0 v0 aff0 (seed + k * W32) =
+       factorize_seeded A label leqb wt countf ovr directed assort from_init starts ends weights r
+         maxit nconv u_rows u_cols u0 v0 aff0 seed.
+Proof. exact factorize_seeded_mod32. Qed.
+Print Assumptions C17_seed_taken_modulo_2_32.
 
